@@ -14,8 +14,15 @@ PY = "/venv/bin/python"
 env = dict(os.environ, PYTHONPATH=wt + "/src", PYTHONDONTWRITEBYTECODE="1")
 env.pop("COBALD_VERIF", None)
 
+def _default_sigint():
+    # a job started in the background of a non-interactive shell inherits SIGINT as "ignored";
+    # Python then installs no KeyboardInterrupt handler and the project's ^C tests hang
+    import signal
+    signal.signal(signal.SIGINT, signal.SIG_DFL)
+
+
 def sh(cmd, **kw):
-    return subprocess.run(cmd, shell=True, text=True, stdout=subprocess.PIPE, stderr=subprocess.STDOUT, **kw)
+    return subprocess.run(cmd, shell=True, text=True, stdout=subprocess.PIPE, stderr=subprocess.STDOUT, preexec_fn=_default_sigint, **kw)
 
 ran = []
 def step(cmd, cwd=wt, e=env, timeout=900):
